@@ -496,6 +496,7 @@ def standard_flow(out, spec, tier, seed, replay):
     failing = [c for c, v in zip(cases, verdicts) if v % 10 == 2]
     differing = [c for c, v in zip(cases, verdicts) if v % 10 == 1]
     outside = sum(1 for v in verdicts if v % 10 == 3)
+    l1_only = sum(1 for v in verdicts if v % 10 == 4)
     nontrivial = set()
     distinct = set()
     for c, v in zip(cases, verdicts):
@@ -563,7 +564,8 @@ def standard_flow(out, spec, tier, seed, replay):
         "distinct_nontrivial": len(nontrivial),
         "distinct_cases": len(distinct),
         "outside_hypotheses": outside,
-        "traces_validated_against_impl": sum(1 for v in verdicts if v % 10 == 0),
+        "traces_validated_against_impl": sum(1 for v in verdicts if v % 10 in (0, 4)),
+        "l1_only_differences": l1_only,
         "disagreements_model_only": len(differing),
         "property_failures": len(failing),
         "rule": spec.RULE,
